@@ -47,6 +47,8 @@ Qed.
 Lemma ws_len : length ws = nv. Proof. apply map_length. Qed.
 Lemma q_same : q' = q.
 Proof. unfold ElectionSpec.quorum_of. rewrite ws'_perm, (total_perm nv ord Hperm ws ws_len). reflexivity. Qed.
+Lemma total_same : ElectionSpec.total_weight ws' = ElectionSpec.total_weight ws.
+Proof. rewrite ws'_perm. apply (total_perm nv ord Hperm ws ws_len). Qed.
 Lemma wsP_same (P Q : nat -> bool) : (forall j, (j < nv)%nat -> Q j = P (unpos j)) -> wsP ws' Q = wsP ws P.
 Proof. intros H. rewrite ws'_perm. apply (wsP_perm nv ord Hperm ws P Q ws_len H). Qed.
 
